@@ -123,9 +123,20 @@ def run(res, a):
         rep = json.load(open(a.replay))
         if rep["case"].startswith("srp "):
             srp_stage(res, a, [rep["case"]])
+        elif rep["case"].startswith("hist "):
+            from . import c20
+            core.run_correspondence(res, c20.FAMILY, [{"id": "replay", "line": rep["case"], "kind": "hist/identity"}], c20)
         else:
             core.run_correspondence(res, FAMILY, [{"id": "replay", "line": rep["case"], "kind": "replay", "meta": rep.get("meta") or {}}], mod)
         return
     rng = core.rng_for(ID, res.seed)
     core.run_correspondence(res, FAMILY, core.load_corpus(FAMILY) + gen(rng, a.tier), mod)
     srp_stage(res, a)
+    # accessory identities and storage contents: a controller paired before a restart verifies after it, also when the stored
+    # identity is one the library would not have generated itself (lower-case letters); judged by the model and oracle of C20
+    from . import c20
+    hist = ["hist S:l:-:5 PS:c1 T E X S:l:-:5 T RM:c1:c1 T E",
+            "hist S:l:-:5 PS:c1 T E X LC S:l:-:5 T E RM:c1:c1 T X S:l:-:5 T E",
+            "hist S:b,s:-:2 X LC S:b,s:-:2 PS:c1 T X S:b,s:-:2 AD:c1:c2 T E RM:c2:c1 T E"]
+    core.run_correspondence(res, c20.FAMILY, [{"id": "ident%d" % i, "line": l, "kind": "hist/identity"} for i, l in enumerate(hist)], c20,
+                            corr_name="correspondence model<->code, family config (stored identities across restarts)")
